@@ -551,14 +551,15 @@ OBLIGATIONS = [
        functions=[S._SFTPFileCopier.run_task, S._SFTPFileCopier.run, S._SFTPParallelIO.iter],
        bounds='announced size {0,4,5} (thorough 0..7) vs real source length {3,5,8}; block size 1..3, max_requests 1..3; any completion order and short reads; non-sparse (sparse layouts: sparse_copy)'),
     Ob('copy_tree', copy_tree,
-       sym=dict(nf=R(0, 5), ng=R(0, 3), ti=R(0, 3), follow=B, top=R(0, 2), two=B, preserve=B,
-                c0=R(0, 1), c1=R(0, 1), c2=R(0, 1), s0=R(1, 3), s1=R(1, 3), s2=R(1, 3)),
+       sym=dict(nf=R(0, 4), preserve=B, c0=R(0, 1), s0=R(1, 2), s1=R(1, 2)),
        shards=dict(ti=[0, 1, 2, 3], follow=[False, True], top=[0, 1, 2], bs=[2], mr=[2]),
+       fixed=dict(ng=1, two=False, c1=0, c2=0, s2=1),
+       thorough_sym=dict(ng=R(0, 2), two=B, c1=R(0, 1)),
        thorough_shards=dict(ti=[0, 1, 2, 3], follow=[False, True], top=[0, 1, 2], bs=[1, 2, 3], mr=[1, 3]),
-       pre=['s2 == 1 and c2 == 0'], timeout=250, thorough_timeout=600,
+       timeout=250, thorough_timeout=900,
        functions=[S.SFTPClient._copy, S._SFTPFileCopier.run, S._SFTPFileCopier.run_task, S._SFTPParallelIO.iter],
-       bounds='model tree /s={f (0..5 bytes), l -> {f, /s/f, sub/g, dangling}, sub/{g (0..3 bytes)}}; copy of the tree, of the link or of the file; '
-              'follow_symlinks on/off, preserve on/off; block size 2 (thorough 1..3), max_requests 2 (1,3); completion order and short reads as in copier'),
+       bounds='model tree /s={f (0..4 bytes), l -> {f, /s/f, sub/g, dangling}, sub/{g (1 byte; thorough 0..2)}}; copy of the tree, of the link or of the file; '
+              'follow_symlinks on/off, preserve on/off; block size 2 (thorough 1..3), max_requests 2 (1,3); first completion choice and first two short-read counts symbolic'),
     Ob('sparse_copy', sparse_copy, sym=dict(ri=R(0, 5), two=B, **_C, **_S),
        shards=dict(bs=[1, 2], mr=[1, 3]), thorough_shards=dict(bs=[1, 2, 3], mr=[1, 2, 3], ri=[0, 1, 2, 3, 4, 5]),
        pre=['s4 == 1 and s5 == 1 and c5 == 0'], timeout=250, thorough_timeout=600,
